@@ -68,5 +68,10 @@ def run(ctx):
                 "creation; the remaining sites are the reviewed raw constructors and ownership transfers; a new site is reported.")
     n = elin.check_mint(ctx, F)
     ctx.floor("E-LIN.mint", "edge-creating functions inventoried", n, 22)
+    ctx.explain("E-FREELIST.handover: when a thread's session on a store ends, LocalStoreStateGuard::drop skips return_preallocated "
+                "only after inspecting all three thread-local cells (free list, partially used chunk, node-count delta); a "
+                "parked free list is otherwise lost when the next session zeroes the local state.")
+    nh = efreelist.check_guard_handover(ctx, F)
+    ctx.floor("E-FREELIST.handover", "session-end hand-over sites", nh, 1)
     ctx.not_decided = ("exactness of counts over histories; the unsafe internals of the managers; "
                        "capacity restoration after gc")
